@@ -512,6 +512,20 @@ def p5(ck: Check, acc: dict[str, str]) -> None:
                 ck.ob("P5", fm, e.stmt, True, f"`{e.field}` only compared")
                 continue
             st = e.stmt
+            # `F if F is not None else default`: the load sits in the arm of a conditional expression that tests it
+            x_, guarded = e.node, False
+            while x_ is not None and not isinstance(x_, ast.stmt):
+                up = fm.f.parents.get(x_)
+                if isinstance(up, ast.IfExp) and isinstance(up.test, ast.Compare) and len(up.test.ops) == 1 \
+                        and isinstance(up.test.comparators[0], ast.Constant) and up.test.comparators[0].value is None \
+                        and text(up.test.left) == text(e.node):
+                    if (x_ is up.body and isinstance(up.test.ops[0], ast.IsNot)) or (x_ is up.orelse and isinstance(up.test.ops[0], ast.Is)):
+                        guarded = True
+                        break
+                x_ = up
+            if guarded:
+                ck.ob("P5", fm, e.stmt, True, f"`{e.field}` read in the not-None arm of a conditional expression on the field")
+                continue
             kf = logic.B(f"none:FIELD<{e.diag}|{e.nid}|{e.field}>")
             pc0 = fm.pc(e.cfgn)
             if kf[1] in logic.atoms(pc0) and logic.implies(pc0, logic.Not(kf)):
